@@ -42,6 +42,7 @@ class Sched:
         self.gates = {}              # worker -> number of gates passed
         self.max_steps = 200000
         self.stall = {}              # worker -> predicate(sched) -> bool: do not schedule while true
+        self.pending_lock = {}       # worker -> task whose lock.get() is in progress (fs-level gating)
 
     # called by worker threads
     def gate(self, w, what):
@@ -141,8 +142,11 @@ class GLock:
 
     def get(self):
         self.sched.gate(self.w, ('lock', self.t))
+        self.sched.record(('lockAttempt', self.w, self.t))
+        self.sched.pending_lock[self.w] = self.t
         r = bool(self.base.get())
-        self.sched.record(('lock', self.w, self.t, r))
+        if self.sched.pending_lock.pop(self.w, None) is not None:
+            self.sched.record(('lock', self.w, self.t, r))
         return r
 
     def release(self):
@@ -263,7 +267,7 @@ def analyse(path, make_store):
     return index, order, info, top, store
 
 
-def run_workers(path, make_worker_store, nworkers, rng, flags=None, policy=None, kill_plan=None, index=None, late=None, max_tasks=None, opts_extra=None):
+def run_workers(path, make_worker_store, nworkers, rng, flags=None, policy=None, kill_plan=None, index=None, late=None, max_tasks=None, opts_extra=None, fs_gates=False):
     """run `nworkers` real worker loops under the gated scheduler. make_worker_store(w) -> store object for worker w (all on one backend).
     flags[w] = (keep_going, keep_failed, aggressive_unload). Returns (trace, results per worker)."""
     global CURRENT
@@ -283,6 +287,19 @@ def run_workers(path, make_worker_store, nworkers, rng, flags=None, policy=None,
         loaded.append((tasks, space, base))
     jug.hooks.reset_all_hooks()
     executed = {}
+    undo_fs = None
+    if fs_gates:
+        # additionally gate every file-system primitive on lock files: workers interleave *inside* lock operations, and can be killed there
+        from jugverif import fsgate
+
+        def fhook(prim, path, *extra):
+            w = getattr(lib.TL, 'w', None)
+            if w is not None and isinstance(path, str) and (os.sep + 'locks' + os.sep) in path and prim in ('exists', 'open', 'fdopen', 'unlink', 'utime', 'stat', 'rename', 'link'):
+                if prim == 'fdopen' and w in sched.pending_lock:
+                    # the O_EXCL creation has just succeeded: this is the linearisation point of a winning get()
+                    sched.record(('lock', w, sched.pending_lock.pop(w), True))
+                sched.gate(w, ('fs', prim))
+        undo_fs = fsgate.install(fhook)
 
     def on_executed(t):
         w = getattr(lib.TL, 'w', None)
@@ -348,5 +365,7 @@ def run_workers(path, make_worker_store, nworkers, rng, flags=None, policy=None,
     finally:
         for t in threads:
             t.join(timeout=20)
+        if undo_fs:
+            undo_fs()
         jug.hooks.reset_all_hooks()
     return sched.trace, results, loaded
